@@ -37,6 +37,10 @@ func (e *UnnestExpr) Eval(ctx context.Context, local Scope) (Value, error) {
 		return nil, WrapContextErr(err, e, local)
 	}
 	if set, ok := value.(Set); ok {
+		if !set.IsTrue() {
+			// the empty relation has no heading; like nest, unnest leaves it alone
+			return set, nil
+		}
 		return Unnest(set, e.attr)
 	}
 	return nil, WrapContextErr(errors.Errorf("unnest lhs must be relation, not %s", ValueTypeAsString(value)), e, local)
